@@ -123,15 +123,14 @@ def expandEdgeConstraint : List Edge → List Edge
   | [e] => [nodeEdge e.1, edgeEdge e, nodeEdge e.2]
   | e :: rest => nodeEdge e.1 :: edgeEdge e :: expandEdgeConstraint rest
 
-/-- `get_expanded_subpath_constraints`: `[]` for no constraints, `IndexError` when the first
-constraint is empty, `ValueError` for unknown nodes / edges -/
+/-- `get_expanded_subpath_constraints`: `[]` for no constraints, `ValueError` when some constraint is empty
+(since fix b2: before, `subpath_constraints[0][0]` raised `IndexError` on an empty first constraint and an empty later
+one was passed on), `ValueError` for unknown nodes / edges -/
 def expandConstraints (g : Graph) : Constraints → Except String (List (List Edge))
   | .nodes [] => .ok []
   | .edges [] => .ok []
-  | .nodes ([] :: _) => .error "index"
-  | .edges ([] :: _) => .error "index"
-  | .nodes l => l.mapM fun c => c.mapM (expandedNode g)
-  | .edges l => l.mapM fun c =>
+  | .nodes l => if l.any List.isEmpty then .error "empty" else l.mapM fun c => c.mapM (expandedNode g)
+  | .edges l => if l.any List.isEmpty then .error "empty" else l.mapM fun c =>
       if c.all g.edges.contains then .ok (expandEdgeConstraint c) else .error "notin"
 
 /-! ## condensing -/
